@@ -532,6 +532,15 @@ fn self_exe() -> PathBuf {
     std::env::current_exe().expect("current exe")
 }
 
+/// A child running this binary under an address-space cap (a runaway run must die, not take the
+/// machine with it). Not used for the ASan / Miri variants, which reserve huge address ranges.
+fn capped_self(args: &[&str]) -> std::process::Command {
+    let mut c = std::process::Command::new("sh");
+    c.arg("-c").arg("ulimit -v 12000000 2>/dev/null; exec \"$0\" \"$@\"").arg(self_exe());
+    c.args(args);
+    c
+}
+
 fn tmp_dir() -> PathBuf {
     let d = root_dir().join("sim").join("target").join("tmp");
     let _ = std::fs::create_dir_all(&d);
@@ -582,8 +591,7 @@ pub fn check_main(prop: &str, tier: &str) -> i32 {
             continue;
         }
         let prefix = tmp.join(format!("w-{}-{}-{}", pid, prop, w));
-        let proc = std::process::Command::new(self_exe())
-            .args(["worker", prop, tier, &verif_seed.to_string(), &from.to_string(), &to.to_string(), prefix.to_str().unwrap()])
+        let proc = capped_self(&["worker", prop, tier, &verif_seed.to_string(), &from.to_string(), &to.to_string(), prefix.to_str().unwrap()])
             .stdout(std::process::Stdio::null())
             .spawn();
         match proc {
@@ -595,7 +603,7 @@ pub fn check_main(prop: &str, tier: &str) -> i32 {
         }
     }
     // supervise
-    let hang_limit = Duration::from_secs(std::env::var("LRUSIM_HANG_SECS").ok().and_then(|s| s.parse().ok()).unwrap_or(30));
+    let hang_limit = Duration::from_secs(std::env::var("LRUSIM_HANG_SECS").ok().and_then(|s| s.parse().ok()).unwrap_or(20));
     let mut dead: Vec<(u64, &'static str)> = Vec::new(); // (run index, how)
     let mut harness_failed = false;
     loop {
@@ -722,7 +730,11 @@ pub fn check_main(prop: &str, tier: &str) -> i32 {
     let mut cut_short = 0u64;
     let memory_safety_prop = matches!(prop, "C06" | "C07" | "C16" | "C17");
     let mut crash_violations: Vec<VRec> = Vec::new();
-    for (idx, how) in &dead {
+    if dead.len() > 2 {
+        println!("note: {} workers died or hung; the first two are investigated, the rest are counted as cut short", dead.len());
+        cut_short += (dead.len() - 2) as u64;
+    }
+    for (idx, how) in dead.iter().take(2) {
         if *idx >= u64::MAX - 1 {
             eprintln!("harness error: a worker died outside any run");
             return 2;
@@ -985,7 +997,7 @@ pub fn run_child(args: &[&str], limit: Duration) -> (ChildEnd, String) {
         Ok(f) => f,
         Err(_) => return (ChildEnd::SpawnFailed, String::new()),
     };
-    let mut p = match std::process::Command::new(self_exe()).args(args).stdout(f).spawn() {
+    let mut p = match capped_self(args).stdout(f).spawn() {
         Ok(p) => p,
         Err(_) => return (ChildEnd::SpawnFailed, String::new()),
     };
@@ -999,7 +1011,7 @@ pub fn run_child(args: &[&str], limit: Duration) -> (ChildEnd, String) {
                 }
             }
             Ok(None) => {
-                if t0.elapsed() > limit * 2 {
+                if t0.elapsed() > limit + Duration::from_secs(5) {
                     let _ = p.kill();
                     let _ = p.wait();
                     break ChildEnd::TimedOut;
